@@ -38,6 +38,10 @@ KINDS = {
     "fits-F32n": ("fits", "f4", 0),
     # c: some leaves are degenerate - a constant tile, or a single finite pixel - and hold the extremes
     "fits-F32c": ("fits", "f4", 0),
+    # s: data of small magnitude (fluxes of a few 1e-9): ranges must not be rounded to a fixed number of decimals
+    "fits-F32s": ("fits", "f4", 0),
+    # half-precision colour tiles (three float channels; a pixel is undefined when its channels are NaN)
+    "npy-F16x3": ("npy", "f2", 3),
     # i: some leaves hold nothing but NaN and a few infinite pixels (defined values)
     "npy-F32i": ("npy", "f4", 0),
 }
@@ -71,6 +75,8 @@ def leaf(tid, kind):
             a[10:14, 20:24] = np.inf
             a[100, 7] = -np.inf
             und = np.zeros_like(und)
+        if kind.endswith("s"):
+            a = (a * np.float32(3e-12)).astype(dt)
         if kind.endswith("c"):
             if tid % 3 == 0:
                 a[...] = 90000.0 + tid  # constant leaf above every other leaf's range (DATAMIN == DATAMAX)
@@ -78,6 +84,10 @@ def leaf(tid, kind):
                 a[...] = np.nan
                 a[17, 33 + tid] = -5000.0 - tid  # one finite pixel, below every other leaf's range
                 und = np.zeros_like(und)
+        a[und] = np.nan
+    elif ch == 3 and dt == "f2":
+        v = ((base % 1000) * 0.5 + tid).astype("f4")
+        a = np.stack([v, v + 1.0, v * 0.25 + 2.0], axis=-1).astype("f2")
         a[und] = np.nan
     elif ch == 0:
         top = 255 if dt == "u1" else 32767  # up to the type's maximum (a sum of four must not wrap)
@@ -139,11 +149,11 @@ def expected_tree(leaves, start, kind):
     fmt, dt, ch = KINDS[kind]
     conv = {}
     for pos, a in leaves.items():
-        if ch == 3:
+        if ch == 3 and dt == "u1":
             conv[pos] = np.concatenate([a, np.full(a.shape[:2] + (1,), 255, "u1")], axis=2)
         else:
             conv[pos] = a
-    return rm.cascade(conv, start, np.dtype(dt), 4 if ch in (3, 4) else 0)
+    return rm.cascade(conv, start, np.dtype(dt), (3 if dt == "f2" else 4) if ch in (3, 4) else 0)
 
 
 def same_pixels(a, b):
@@ -154,7 +164,7 @@ def same_pixels(a, b):
         na, nb = np.isnan(a), np.isnan(b)
         if not np.array_equal(na, nb):
             return False
-        rtol = 2e-6 if a.dtype.itemsize == 4 else 1e-12
+        rtol = {2: 2e-3, 4: 2e-6}.get(a.dtype.itemsize, 1e-12)  # two units in the last place of the stored type
         # a mean of values of mixed sign can cancel: the rounding error scales with the inputs
         scale = float(np.max(np.abs(b[~nb]))) if (~nb).any() else 0.0
         return bool(np.allclose(a[~na], b[~nb], rtol=rtol, atol=rtol * scale))
@@ -245,13 +255,14 @@ def compare_trees(got, want, start, kind, bad, check_range, leaves):
     for pos in sorted(above_got & above_want, key=lambda p: (-p[0], p[2], p[1])):
         g = got[pos][0]
         w = want[pos]
-        if ch == 3 and g.ndim == 3 and g.shape[2] == 3:
+        if ch == 3 and dt == "u1" and g.ndim == 3 and g.shape[2] == 3:
             w = w[..., :3]
         if not same_pixels(g, w):
-            if g.shape != w.shape or g.dtype.kind != w.dtype.kind:
+            if g.shape != w.shape or g.dtype.kind != w.dtype.kind or g.dtype.itemsize != w.dtype.itemsize:
                 bad("parent-shape-or-type", "tile %r has shape %r dtype %s, expected %r %s" % (pos, g.shape, g.dtype, w.shape, w.dtype))
             else:
-                eq = (np.isclose(g, w, rtol=2e-6, atol=2e-6 * float(np.nanmax(np.abs(w)))) | ((g != g) & (w != w))) if g.dtype.kind == "f" else (g == w)
+                rt = {2: 2e-3, 4: 2e-6}.get(g.dtype.itemsize, 1e-12)
+                eq = (np.isclose(g, w, rtol=rt, atol=rt * float(np.nanmax(np.abs(w)))) | ((g != g) & (w != w))) if g.dtype.kind == "f" else (g == w)
                 if eq.ndim == 3:
                     eq = eq.all(axis=2)
                 idx = np.argwhere(~eq)
@@ -538,7 +549,7 @@ def build_jobs(tier, seed, kinds, check_range, e1_kinds):
 
 def run(tier, seed):
     rep = Report(PROP, tier, seed, "model_checking")
-    kinds = ["npy-F32", "npy-U8", "png-RGBA", "png-RGB", "fits-F32", "npy-F32i"] + (["npy-I16", "npy-F64"] if tier == "thorough" else [])
+    kinds = ["npy-F32", "npy-U8", "png-RGBA", "png-RGB", "fits-F32", "npy-F32i", "npy-I16", "npy-F16x3"] + (["npy-F64"] if tier == "thorough" else [])
     rep.rule = (
         "E2: start depth 1 (all 16 leaf subsets) and 2 (%d sparse populations), formats %r, without a filter and with one accepting every populated tile: "
         "serial cascade vs reference merge, pixel-exact. E1: real TileMerger under the virtual scheduler, all interleavings, terminal tree = serial tree. "
